@@ -24,6 +24,23 @@ pub fn get_message(squitter: &str) -> Option<Vec<u32>> {
         .filter(|message| matches!(message.len(), 14 | 28))
         .filter(|message| length_matches_format(message))
         .filter(|message| reminder(message) == 0)
+        .filter(|message| parity_ok(message))
+}
+
+/// DF17/18: the CRC-24 of the frame must leave no remainder.
+/// DF11: only the low 7 bits of the remainder (the interrogator code) may be set.
+/// The other formats overlay the address on the parity field, nothing to check.
+fn parity_ok(message: &[u32]) -> bool {
+    let Some(df) = range_value(message, 1, 5) else {
+        return false;
+    };
+    let len = (message.len() * 4) as u32;
+    let syndrome = range_value(message, len - 23, len).map(|parity| parity ^ get_crc(message, df));
+    match df {
+        17 | 18 => syndrome == Some(0),
+        11 => syndrome.is_some_and(|s| s >> 7 == 0),
+        _ => true,
+    }
 }
 
 /// Downlink formats 0-15 are 56-bit frames, formats 16-31 are 112-bit frames.
